@@ -63,15 +63,28 @@ func verifC06Env() *verifC06 {
 		responseTypes: []oidc.ResponseType{oidc.ResponseTypeCode, oidc.ResponseTypeIDToken, oidc.ResponseTypeIDTokenOnly},
 		idLifetime:    time.Duration(h.lifeS) * time.Second, skew: time.Duration(h.skewS) * time.Second, keyID: "cA-key",
 		redirectURIs: []string{"https://rp.example.com/cb"}}
-	if nd.Choice("cA.tokentype", 2) == 1 {
+	// quick tier: a covering list of (algorithm, token type, scope set, audience size) instead of the cross product
+	scn := [][4]int{{0, 0, 0, 0}, {1, 1, 5, 1}, {2, 0, 10, 1}, {0, 1, 7, 0}, {1, 0, 7, 1}, {2, 1, 0, 0}}
+	full := nd.Param("cross", 0) == 1
+	var pick [4]int
+	if full {
+		pick = [4]int{nd.Choice("sign.alg", nd.Param("nalgs", 4)), nd.Choice("cA.tokentype", 2), nd.Choice("R.scopeset", 16), nd.Choice("R.naud", nd.Param("maxaud", 2)+1)}
+	} else {
+		pick = scn[nd.Choice("scenario", len(scn))]
+	}
+	if pick[1] == 1 {
 		cA.tokenType = AccessTokenTypeJWT
 	}
 	cA.userinfoAssertion = nd.Bool("cA.userinfoassertion")
+	if nd.Choice("cA.idrestrict", 2) == 1 {
+		cA.idScopeDrop = oidc.ScopeProfile // the client limits the scopes asserted into ID tokens; access tokens stay unrestricted
+	}
 	h.cA = cA
 	h.st.clients = []*verifClient{cA}
 	verifGiveKeys(h.st)
-	h.alg = verifC06Algs[nd.Choice("sign.alg", nd.Param("nalgs", 4))]
+	h.alg = verifC06Algs[pick[0]]
 	verifSetupSigning(h.st, h.alg)
+	h.st.rotating = nd.Choice("keys.rotating", 2) == 1 // key rotation: the previous public key is still published
 	h.st.teDefaults = true
 	h.storage = &verifStorageFull{h.st}
 	h.p = verifProvider(h.storage)
@@ -83,15 +96,12 @@ func verifC06Env() *verifC06 {
 	nd.Assume(h.subject != "")
 	h.nonce = nd.Str("R.nonce")
 	h.authTime = nd.Int("R.authtime", 1<<30, 1<<32)
-	for i, n := 0, nd.Choice("R.naud", nd.Param("maxaud", 2)+1); i < n; i++ {
+	for i, n := 0, pick[3]; i < n; i++ {
 		h.audience = append(h.audience, nd.Str("R.aud"))
 	}
 	h.scopes = []string{oidc.ScopeOpenID}
 	// scope sets: bit 0 email, bit 1 profile, bit 2 offline_access, bit 3 a custom scope (quick: four representative sets)
-	set := nd.Choice("R.scopeset", 16)
-	if nd.Param("allscopesets", 0) == 0 {
-		set = []int{0, 5, 10, 7}[nd.Choice("R.scopeset.quick", 4)]
-	}
+	set := pick[2]
 	if set&1 != 0 {
 		h.email = true
 		h.scopes = append(h.scopes, oidc.ScopeEmail)
@@ -105,8 +115,13 @@ func verifC06Env() *verifC06 {
 		h.scopes = append(h.scopes, oidc.ScopeOfflineAccess)
 	}
 	if set&8 != 0 {
-		h.custom = nd.Str("R.scope.customname")
-		nd.Assume(nd.And(h.custom != oidc.ScopeEmail, nd.And(h.custom != oidc.ScopeProfile, nd.And(h.custom != oidc.ScopePhone, h.custom != oidc.ScopeAddress))))
+		// a custom scope: "x-" plus two arbitrary printable ASCII bytes other than space (what the space-delimited
+		// JSON wire format of the response can carry unchanged)
+		tail := nd.Bytes("R.scope.custom", 2)
+		for i := 0; i < len(tail); i++ {
+			nd.Assume(tail[i] > 0x20 && tail[i] < 0x7f && tail[i] != '"' && tail[i] != '\\' && tail[i] != '<' && tail[i] != '>' && tail[i] != '&')
+		}
+		h.custom = "x-" + tail
 		h.scopes = append(h.scopes, h.custom)
 	}
 	return h
@@ -141,6 +156,7 @@ func (h *verifC06) tokenRequest(flow string) *http.Request {
 		h.form.Set("grant_type", string(oidc.GrantTypeDeviceCode))
 		h.form.Set("device_code", "dev-0")
 	case "client_credentials":
+		h.audience = nil // the client-credentials request of the storage names the client itself as audience
 		h.form.Set("grant_type", string(oidc.GrantTypeClientCredentials))
 		h.form.Set("scope", strings.Join(h.scopes, " "))
 	}
@@ -208,7 +224,7 @@ func (h *verifC06) checkIDToken(idToken, accessToken string, withNonce bool) {
 	asserted := accessToken == "" || h.cA.userinfoAssertion
 	if h.flow != "client_credentials" {
 		nd.Assert((claims.Email != "") == (h.email && asserted), "the email claim appears exactly when the email scope is granted and user claims are asserted into the ID token")
-		nd.Assert((claims.Name != "") == (h.profile && asserted), "the profile claims appear exactly when the profile scope is granted and user claims are asserted into the ID token")
+		nd.Assert((claims.Name != "") == (h.profile && asserted && h.cA.idScopeDrop != oidc.ScopeProfile), "the profile claims appear exactly when the profile scope is granted and user claims are asserted into the ID token")
 	}
 }
 
